@@ -1,4 +1,4 @@
 Require Import Extraction ExtrOcamlBasic.
-Require Import Base.Prelude Base.XVal C12.Model.
+Require Import Base.Prelude Base.XVal C12.Model C12.Jenks.
 Extraction Language OCaml.
-Extraction "model.ml" reclass_raster binary_raster class_cell xfind_bin.
+Extraction "model.ml" reclass_raster binary_raster class_cell xfind_bin jenks_min.
